@@ -969,7 +969,7 @@ impl<'a> Model<'a> {
                         KeyKind::Ident => {
                             if it.name.contains("::") {
                                 self.mistake("bad_key");
-                                leaves.push(leaf("bad_key", "Key must be an identifier", SpanExp::Within(it.r_path)));
+                                leaves.push(leaf("bad_key", "Key must be an identifier", SpanExp::Within(it.r_item)));
                                 if let Err(ls) = r {
                                     leaves.extend(ls);
                                 }
@@ -981,7 +981,7 @@ impl<'a> Model<'a> {
                     let already = seen.contains(&identity);
                     if already {
                         self.mistake("repeated_name");
-                        leaves.push(leaf("duplicate", format!("Duplicate field `{}`", display), SpanExp::Within(it.r_path)));
+                        leaves.push(leaf("duplicate", format!("Duplicate field `{}`", display), SpanExp::Within(it.r_item)));
                     }
                     match r {
                         Ok(_) if already => {}
